@@ -780,11 +780,16 @@ func exec(t *testing.T, ci sim.CaseI, choices []uint32, keepLog bool) *sim.Outco
 				h.cnt["fixpoints-checked"]++
 			}
 		default:
-			// P6: with a fault the outcome is an error or the fault-free result
+			// P6: with a fault the outcome is an error, or the fault-free result, or — a transient
+			// registry failure may legitimately steer tidy to another valid answer (an older but
+			// sufficient version, an implied instead of an explicit default major version) — a result
+			// that is itself a fixpoint accepted by the tidy check. Never a file tidy itself rejects.
 			if first.err == nil && (ref.err != nil || first.canon != ref.canon) {
-				v = &sim.Violation{Class: "fault-changes-result", Msg: fmt.Sprintf("with faults %v tidy returned %s; without faults: %s", h.faults, first, ref)}
-			} else if didSecond && second.err == nil && second.canon != first.canon {
-				v = &sim.Violation{Class: "fault-changes-result", Msg: fmt.Sprintf("with faults %v tidy of the tidied file returned %s; first: %s", h.faults, second, first)}
+				if !didSecond || second.err != nil || second.canon != first.canon || checkErr != nil {
+					v = &sim.Violation{Class: "fault-changes-result", Msg: fmt.Sprintf("with faults %v tidy returned %s, which is neither the fault-free result (%s) nor a fixpoint (tidy of it: %s; check: %v)", h.faults, first, ref, second, checkErr)}
+				} else {
+					h.cnt["fault-steered-to-another-valid-result"]++
+				}
 			}
 		}
 		if v != nil {
